@@ -71,11 +71,22 @@ impl DelegateToDefaultImpl for Rc<Unimock> {
     type Delegator = Rc<DefaultImplDelegator>;
 
     fn to_delegator(self) -> Self::Delegator {
-        Rc::new(DefaultImplDelegator::__from_unimock((*self).clone()))
+        // If this is the only handle, move the instance instead of cloning it.
+        // Dropping the handle would otherwise verify the original instance
+        // while its clone is still alive inside the delegator.
+        let unimock = match Rc::try_unwrap(self) {
+            Ok(unimock) => unimock,
+            Err(shared) => (*shared).clone(),
+        };
+        Rc::new(DefaultImplDelegator::__from_unimock(unimock))
     }
 
     fn from_delegator(delegator: Self::Delegator) -> Self {
-        Rc::new(delegator.unimock.clone())
+        let unimock = match Rc::try_unwrap(delegator) {
+            Ok(delegator) => delegator.unimock,
+            Err(shared) => shared.unimock.clone(),
+        };
+        Rc::new(unimock)
     }
 }
 
@@ -83,11 +94,22 @@ impl DelegateToDefaultImpl for Arc<Unimock> {
     type Delegator = Arc<DefaultImplDelegator>;
 
     fn to_delegator(self) -> Self::Delegator {
-        Arc::new(DefaultImplDelegator::__from_unimock((*self).clone()))
+        // If this is the only handle, move the instance instead of cloning it.
+        // Dropping the handle would otherwise verify the original instance
+        // while its clone is still alive inside the delegator.
+        let unimock = match Arc::try_unwrap(self) {
+            Ok(unimock) => unimock,
+            Err(shared) => (*shared).clone(),
+        };
+        Arc::new(DefaultImplDelegator::__from_unimock(unimock))
     }
 
     fn from_delegator(delegator: Self::Delegator) -> Self {
-        Arc::new(delegator.unimock.clone())
+        let unimock = match Arc::try_unwrap(delegator) {
+            Ok(delegator) => delegator.unimock,
+            Err(shared) => shared.unimock.clone(),
+        };
+        Arc::new(unimock)
     }
 }
 
